@@ -58,6 +58,19 @@ def install(eng):
         e.assume(z3.And(a.t <= r.t, r.t <= b.t))
         return r
 
+    def _shuffle(e, args, kwargs, fr, node):
+        # random.shuffle(xs): xs becomes some permutation of itself - modelled as an unknown list of the same length
+        # (a sound weakening: nothing is known about which element sits where)
+        xs = args[0]
+        if not (isinstance(xs, V) and xs.ty[0] == 'list') or xs.ty[1] == T.ANY:
+            return VNONE
+        new = e.fresh(xs.ty, 'shuffled')
+        e.assume(z3.Length(new.t) == z3.Length(xs.t))
+        e.assign(node.args[0], new, fr)
+        return VNONE
+
+    B.EXTERN['random.shuffle'] = _shuffle
+    B.EXTERN['twisted.internet.protocol.Factory.forProtocol'] = lambda e, args, kwargs, fr, node: e.fresh(T.ANY, 'factory')
     B.EXTERN['itertools.cycle'] = _cycle
     B.EXTERN['random.randint'] = _randint
 
